@@ -202,7 +202,13 @@ impl GenerationPass for AvailableValuePass {
                         node.gen_memory_value()
                     {
                         let width = store_width(&node.node());
-                        if let Some(curr_stack) = node.reg_values_in().stack_offset() {
+                        // A position that is not a 32-bit distance from the entry
+                        // stack pointer is treated like an unknown one
+                        let position = node
+                            .reg_values_in()
+                            .stack_offset()
+                            .filter(|curr_stack| curr_stack.checked_add(offset).is_some());
+                        if let Some(curr_stack) = position {
                             // The store overwrites `width` bytes: every slot it
                             // overlaps no longer holds its recorded word
                             let start = i64::from(curr_stack) + i64::from(offset);
